@@ -833,7 +833,7 @@ impl<'lexer> Lexer<'lexer> {
         match low_surrogate {
           0xDC00..=0xDFFF => {
             let mut code_point = 0x10000 + ((value - 0xD800) * 0x400) + (low_surrogate - 0xDC00);
-            let b4 = ((code_point & 0xFF) as u8) | 0x80;
+            let b4 = ((code_point & 0x3F) as u8) | 0x80;
             code_point >>= 6;
             let b3 = ((code_point & 0x3F) as u8) | 0x80;
             code_point >>= 6;
